@@ -198,6 +198,9 @@ impl WalRecord {
                     .map_err(|_| Error::WalRecordTooLarge(u32::MAX))?;
                 out.extend_from_slice(&key_len.to_le_bytes());
                 out.extend_from_slice(key_bytes);
+                if value.exceeds_max_nesting() {
+                    return Err(Error::WalProtocol("property value nested too deeply"));
+                }
                 let value_bytes = value.encode();
                 out.extend_from_slice(&value_bytes);
             }
@@ -216,6 +219,9 @@ impl WalRecord {
                     .map_err(|_| Error::WalRecordTooLarge(u32::MAX))?;
                 out.extend_from_slice(&key_len.to_le_bytes());
                 out.extend_from_slice(key_bytes);
+                if value.exceeds_max_nesting() {
+                    return Err(Error::WalProtocol("property value nested too deeply"));
+                }
                 let value_bytes = value.encode();
                 out.extend_from_slice(&value_bytes);
             }
